@@ -79,8 +79,12 @@ TrWire == LET e == Ev IN e.a \in {"Cut", "Restore"} /\
             THEN (IF e.a = "Cut" THEN Cut(e.lk) ELSE Restore(e.lk)) /\ Ok1
             ELSE Stop("changed-without-cause")
 
+\* (in a state that already violates the forest clauses the frame may loop:
+\* the walk count is not evaluated there, the step is passed over - the
+\* violation itself has been reported at the step that produced the state)
 TrFlood == LET e == Ev IN e.a = "Flood" /\
              IF ~e.wf \/ Len(e.rx) # net.n THEN Stop("malformed-observation")
+             ELSE IF bad # "ok" /\ FloodReason(adj, conn, nf, nf) # "ok" THEN UNCHANGED vars /\ Ok1
              ELSE IF e.storm = Storm(e.s, e.p) /\ (\A t \in Switches : e.rx[t] = Delivered(e.s, e.p)[t])
              THEN Flood(e.s, e.p) /\ Ok1
              ELSE Flood(e.s, e.p) /\ Note(IF e.storm THEN "flood-storm" ELSE "flood-delivery-mismatch")
